@@ -1,6 +1,9 @@
 /- lhdriver: one operation per line in, one canonical line out. Imports models/specs only. -/
 import LuaHelper.Driver.TextOps
 import LuaHelper.Driver.ConfOps
+import LuaHelper.Driver.LexOps
+import LuaHelper.Driver.ParseOps
+import LuaHelper.Driver.GrammarOps
 open LuaHelper
 
 def dispatch (cmd : String) (args : List String) : String :=
@@ -8,6 +11,15 @@ def dispatch (cmd : String) (args : List String) : String :=
   | some r => r
   | none =>
   match ConfOps.handle cmd args with
+  | some r => r
+  | none =>
+  match LexOps.handle cmd args with
+  | some r => r
+  | none =>
+  match ParseOps.handle cmd args with
+  | some r => r
+  | none =>
+  match GrammarOps.handle cmd args with
   | some r => r
   | none => "bad-op"
 
